@@ -2725,7 +2725,7 @@ class Processor:
             if isinstance(data, (CommentedMap, ryod)):
                 for i, k in [
                         (idx, key) for idx, key in enumerate(data.keys())
-                        if key is reference_node
+                        if key is reference_node and hasattr(key, "anchor")
                 ]:
                     data.insert(i, replacement_node, data.pop(k))
                 for k, val in data.non_merged_items():
